@@ -166,9 +166,17 @@ func compareIsoTree(r io.ReaderAt, root *IsoNode, t *tree, dir string, joliet bo
 			diffs = append(diffs, fmt.Sprintf("COUNT:%s:%d!=%d", d, len(node.Children), len(w)))
 		}
 		// match by mapped name where names are portable; otherwise by multiset of (kind,size)
+		// (a mapped name shared by several records — "WITH SPACE" and "with_space" both become
+		// WITH_SPACE in the primary hierarchy — identifies none of them: those go to the multiset)
 		byName := map[string]*IsoNode{}
+		nameCount := map[string]int{}
 		for _, c := range node.Children {
-			byName[c.Name] = c
+			nameCount[c.Name]++
+		}
+		for _, c := range node.Children {
+			if nameCount[c.Name] == 1 {
+				byName[c.Name] = c
+			}
 		}
 		var restWant, restGot []string
 		matched := map[*IsoNode]bool{}
@@ -209,7 +217,7 @@ func compareIsoTree(r io.ReaderAt, root *IsoNode, t *tree, dir string, joliet bo
 					}
 					walk(c, sub, depth+1)
 				}
-			} else if portable(name) {
+			} else if portable(name) && nameCount[key] == 0 {
 				diffs = append(diffs, "MISSING:"+d+"/"+name)
 			} else {
 				restWant = append(restWant, fmt.Sprintf("%v:%d", wn.isDir, map[bool]int64{true: 0, false: wn.n.size}[wn.isDir]))
